@@ -347,6 +347,13 @@ func commaLed(p *parser, t *token, left *token) *token {
 }
 
 func getType(p *parser) *token {
+	p.enter()
+	t := doGetType(p)
+	p.nest--
+	return t
+}
+
+func doGetType(p *parser) *token {
 	t := p.Token
 	p.Next()
 	switch t.Symbol {
